@@ -42,7 +42,12 @@ where
 {
     Box::new([
         ("inputs", v(0), |cv| Box::new(inputs(cv))),
-        ("input", v(0), |cv| Box::new(inputs(cv).next().into_iter())),
+        ("input", v(0), |cv| {
+            // take the input only when the output is demanded, not when the filter is run
+            // (`from_fn` gives no size hint, so no single-output fast path pulls it early)
+            let mut inputs = Some(inputs(cv));
+            Box::new(core::iter::from_fn(move || inputs.take()?.next()))
+        }),
     ])
 }
 
